@@ -106,7 +106,7 @@ class Trace:
 class Harness:
     def __init__(self, phase=0, fabric=0, regime=4, assemblage=(0,), own_index=0, lifted=True, n_concrete=2,
                  real_derivatives=False, stub_utils=False, L_kind="sym", lsoda_fail=False, get_regime=False,
-                 derivatives_raises=None, kw=None, suffix="", steps_choices=(1, 2), L_scale=None, t_scale=None):
+                 derivatives_raises=None, kw=None, suffix="", steps_choices=(1, 2), L_scale=None, t_scale=None, frame=False):
         self.phase, self.fabric, self.regime = phase, fabric, regime
         self.assemblage, self.lifted, self.n_concrete = assemblage, lifted, n_concrete
         self.real_derivatives, self.stub_utils, self.L_kind = real_derivatives, stub_utils, L_kind
@@ -115,6 +115,7 @@ class Harness:
         self.sfx = suffix
         self.steps_choices = steps_choices
         self.L_scale, self.t_scale = L_scale, t_scale
+        self.frame = frame
         self.M = real_module("pydrex.minerals")
         self.U = real_module("pydrex.utils")
         self.core = real_module("pydrex.core")
@@ -142,6 +143,13 @@ class Harness:
             f0 = symarr("f0" + sfx, (n,))
             O0.flags.writeable = False
             f0.flags.writeable = False
+        if self.frame:
+            Qn, qs, hq, _ = S.quat_rotation("q")
+            c.assume(hq[0])
+            Qm = S.ew(lambda v: v / qs, Qn)
+            self.Q = Qm
+            if self.lifted:
+                O0 = LA.LArr(n, (3, 3), lambda i, a=O0.fn: S._matmul(a(i), Qm.T))
         self.n, self.sigma, self.O0, self.f0 = n, sg, O0, f0
         shim = LA.NPLift() if self.lifted else S.NPShim()
         tr_self = tr
@@ -174,6 +182,9 @@ class Harness:
                 # A-LSODA: the state after a step is an arbitrary finite vector with positive fraction mass
                 if me.lifted:
                     yk = LA.YVec(n, symarr(f"yF{s.k}{sfx}", (9,)), LA.larr(f"yO{s.k}{sfx}", n, (3, 3)), LA.larr(f"yf{s.k}{sfx}", n, ()))
+                    if me.frame:  # the same havoc state expressed in the rotated frame
+                        Fk = S._matmul(me.Q, yk.F9.reshape(3, 3)).flatten()
+                        yk = LA.YVec(n, Fk, LA.LArr(n, (3, 3), lambda i, a=yk.O.fn: S._matmul(a(i), me.Q.T)), yk.f)
                 else:
                     yk = symarr(f"ys{s.k}{sfx}", (10 * n + 9,))
                 if me.lifted:
@@ -313,6 +324,10 @@ class Harness:
             Lm = symarr("L" + sfx, (3, 3))
         if self.L_scale is not None:
             Lm = S.ew(lambda v: v * self.L_scale, Lm)
+        if self.frame:
+            Lm = S._matmul(self.Q, S._matmul(Lm, self.Q.T))
+            F0 = S._matmul(self.Q, F0)
+            self.F0 = F0
         self.Lm = Lm
 
         def get_L(t, x):
